@@ -305,7 +305,7 @@ pub fn run(ctx: &mut Ctx) {
             ctx.sample(|| scenario_json(t, s));
         }
     }
-    ctx.exhaustive(&format!("2 threads x 1 call: every ordered pair of calls (get_line for every present index, two absent ones, line_count, lines) on each of {} texts ({total} scenarios), every interleaving at yield-point granularity with at most {bound21} preemptions (99 = unbounded), unless a scenario hit the cap (bucket exploration-capped)", TEXTS.len()));
+    ctx.exhaustive(&format!("2 threads x 1 call: every ordered pair of calls (get_line for every present index, two absent ones, line_count, lines) on each of {} texts ({total} scenarios), every interleaving at yield-point granularity with at most {bound21} preemptions (99 = unbounded), unless a scenario hit the cap (bucket exploration-capped); schedules that only differ in how long a spin-waiting worker keeps spinning are pruned (bucket execution-with-fairness-switch, absent when the code never spin-waits)", TEXTS.len()));
     ctx.note_add("schedules:exhaustive-2x1", schedules);
 
     // ---- exhaustive: 2 threads x 2 calls and 3 threads x 1 call on sampled call tuples
